@@ -199,6 +199,15 @@ def check_swap(args):
     rr = bytes(AcraNetwork.endianness_swap(r, g))
     if rr != b:
         return "endianness_swap is not its own inverse on %s (group %d): %s" % (b.hex(), g, rr.hex())
+    # the result belongs to the caller: editing it in place must not change what a later call returns
+    m = AcraNetwork.endianness_swap(b, g)
+    if isinstance(m, bytearray) and len(m):
+        m[0] ^= 0xFF
+        m.extend(b"\xaa\x55")
+        again = bytes(AcraNetwork.endianness_swap(b, g))
+        if again != r:
+            return "endianness_swap(%s, %d) returns %s after an earlier result was edited in place (first call gave %s)" % (
+                b.hex(), g, again.hex(), r.hex())
     return None
 
 def _hint_args(hints):
